@@ -60,6 +60,10 @@ def make_inputs(config, seed):
     Bf = {"fcst": field(miss=[(1, 0, 0)]), "pit": field(), "p1": field(miss=[(1, 1, 1)]), "q0.5": field()}
     if config != "noobs":
         Bf["obs"] = dict(obsvals)
+    if config == "ownobs":
+        # B carries its own observations: other values, another cell missing (which file's observations an input is given must not
+        # depend on which input was asked first)
+        Bf["obs"] = field(miss=[(0, 1, 0)])
     if config == "emptyslice":
         # every forecast of B at the second lead time is missing: that slice has no valid case for any request using fcst
         for pos in list(Bf["fcst"]):
@@ -104,6 +108,12 @@ MENU8 = [MENU12[i] for i in (0, 1, 3, 4, 6, 7, 10, 11)]
 MENU_EMPTY = [ev(["obs", "fcst"], 0, "leadtime", 1), ev(["fcst"], 0, "leadtime", 1, single=True), ev(["fcst"], 0, "leadtime", 1), ev(["obs", "fcst"], 1, "leadtime", 1),
               ev(["obs", "fcst"], 0, "leadtime", 0), ev(["obs", "fcst"], 0, "all"), ev(["fcst"], 1, "leadtimeday", 1, single=True), (("M", "mae"), False, 0, "leadtime", None),
               (("M", "fcst"), False, 1, "leadtime", None)]
+
+
+# observations of either input first, alone and with its forecast
+MENU_OWNOBS = [ev(["obs"], 0, "all", single=True), ev(["obs"], 1, "all", single=True), ev(["obs", "fcst"], 0, "no", 0), ev(["obs", "fcst"], 1, "no", 0),
+               ev(["obs"], 1, "no", 0, single=True), ev(["obs"], 0, "location", 1, single=True), ev(["fcst", "obs"], 1, "location", 1), ev(["obs", P1], 0, "leadtime", 0),
+               (("M", "mae"), False, 1, "leadtime", None)]
 
 
 # requests answered from the ensemble (a quantile level and a threshold the files do not store) between requests for the members
@@ -382,10 +392,10 @@ def plan(tier):
     if tier == "quick":
         return [("fix-plain", "plain", MENU12, None), ("fix-obsrange", "obsrange", MENU8, None),
                 ("fix-noobs", "noobs", MENU8, None), ("fix-clim", "clim", MENU8, None), ("fix-emptyslice", "emptyslice", MENU_EMPTY, None),
-                ("fix-ensemble", "ensemble", MENU_ENS, None), ("fix-netcdf", "netcdf", MENU_NC, 3), ("depth2-big", "plain", big_menu(small=True), 2)]
+                ("fix-ensemble", "ensemble", MENU_ENS, None), ("fix-netcdf", "netcdf", MENU_NC, 3), ("fix-ownobs", "ownobs", MENU_OWNOBS, None), ("depth2-big", "plain", big_menu(small=True), 2)]
     return [("fix-plain", "plain", MENU16, None), ("fix-obsrange", "obsrange", MENU12, None),
             ("fix-noobs", "noobs", MENU12, None), ("fix-clim", "clim", MENU12, None), ("fix-emptyslice", "emptyslice", MENU_EMPTY + MENU8[:4], None),
-            ("fix-ensemble", "ensemble", MENU_ENS, None), ("fix-netcdf", "netcdf", MENU_NC, None), ("depth2-big", "plain", big_menu(), 2), ("depth3-mid", "plain", big_menu(small=True), 3), ("depth2-big-clim", "clim", big_menu(), 2),
+            ("fix-ensemble", "ensemble", MENU_ENS, None), ("fix-netcdf", "netcdf", MENU_NC, None), ("fix-ownobs", "ownobs", MENU_OWNOBS, None), ("depth2-big-ownobs", "ownobs", big_menu(), 2), ("depth2-big", "plain", big_menu(), 2), ("depth3-mid", "plain", big_menu(small=True), 3), ("depth2-big-clim", "clim", big_menu(), 2),
             ("depth2-big-obsrange", "obsrange", big_menu(), 2)]
 
 
